@@ -34,7 +34,7 @@ GENHDR := $(GEN)/crypt.h $(GEN)/crypt-hashes.h $(GEN)/crypt-symbol-vers.h
 LIBCPP := -DHAVE_CONFIG_H -DIN_LIBCRYPT -DPIC -I$(GEN) -I$(REPO) -I$(REPO)/lib \
           -Wno-unknown-attributes -Wno-attributes
 
-all: $(B)/simcrypt-asan $(B)/simcrypt-asan-ft $(B)/simcrypt-thr $(B)/simcrypt-O0 $(B)/refsrv $(B)/rngsim $(B)/tree.sha $(B)/externals.txt
+all: $(B)/simcrypt-asan $(B)/simcrypt-asan-ft $(B)/simcrypt-thr $(B)/simcrypt-O0 $(B)/refsrv $(B)/rngsim $(B)/tree.sha $(B)/externals.txt $(B)/locale/.done
 
 setup: all
 
@@ -165,6 +165,16 @@ RNGOBJ := $(foreach v,$(RNGV),$(B)/rng/grb$(v).o)
 RNG_LIBOBJ := $(filter-out $(B)/asan/util-get-random-bytes.o,$(asan_LIBOBJ))
 $(B)/rngsim: $(B)/h/deny_stubs.o $(rng_HOBJ) $(B)/h/rng/rngdev.o $(RNGOBJ) $(RNG_LIBOBJ) $(B)/h/prim-asan.o
 	$(CLANGXX) -fsanitize=address $(rng_HOBJ) $(B)/h/rng/rngdev.o $(B)/h/prim-asan.o $(RNGOBJ) $(RNG_LIBOBJ) $(B)/h/deny_stubs.o $(HLIBS) -o $@
+
+# ---- an 8-bit locale for the "process locale" environment choice (only C and C.utf8 are installed here);
+# LC_CTYPE only, compiled from sim/locale/latin1.src and a generated identity charmap.  Best effort: without
+# localedef the engine falls back to the C locale and says so in the evidence (locale_unavailable).
+$(B)/locale/.done: $(SIM)/locale/latin1.src $(V)/Makefile $(GEN)/.dir
+	@mkdir -p $(B)/locale
+	@{ echo '<code_set_name> ISO-8859-1'; echo '<comment_char> %'; echo '<escape_char> /'; echo 'CHARMAP'; \
+	   i=0; while [ $$i -lt 256 ]; do printf '<U%04X> /x%02x\n' $$i $$i; i=$$((i+1)); done; echo 'END CHARMAP'; } > $(B)/locale/latin1.charmap
+	-@localedef -c -f $(B)/locale/latin1.charmap -i $(SIM)/locale/latin1.src $(B)/locale/xx_XX.ISO-8859-1 >/dev/null 2>&1; true
+	@touch $@
 
 # ---- identity of the tree under test and its external surface
 $(B)/tree.sha: $(LIBSRC) $(wildcard $(REPO)/lib/*.h) $(REPO)/lib/hashes.conf $(REPO)/config.h $(GEN)/.dir
